@@ -50,7 +50,7 @@ func init() {
 			case <-time.After(2 * time.Second):
 			}
 			time.Sleep(10 * time.Millisecond)
-		} else {
+		} else if in["latelower"] != "1" {
 			cl.Handlers.AddHandler(girc.PRIVMSG, ch)
 		}
 		cli, srv := net.Pipe()
@@ -79,6 +79,17 @@ func init() {
 		srv.Write([]byte(":srv 001 " + welcome + " :Welcome\r\n"))
 		for i := 0; i < 2000 && cl.GetNick() != welcome; i++ {
 			time.Sleep(time.Millisecond)
+		}
+		if in["latelower"] == "1" {
+			// the command handler is registered while the connection is running, after messages have been dispatched already, and
+			// under the lower-case spelling of the command (registration is case-insensitive)
+			srv.SetWriteDeadline(time.Now().Add(3 * time.Second))
+			srv.Write([]byte(":" + sender + "!u@h PRIVMSG #c :small talk before the bot listens\r\nPING :early\r\n"))
+			select {
+			case <-pong:
+			case <-time.After(5 * time.Second):
+			}
+			cl.Handlers.AddHandler("privmsg", ch)
 		}
 		for _, t := range texts {
 			srv.SetWriteDeadline(time.Now().Add(3 * time.Second))
@@ -127,7 +138,7 @@ func init() {
 		if fmt.Sprint(got) != fmt.Sprint(want) {
 			c.R.Violation("cmd.wire", hin, fmt.Sprint(got), fmt.Sprint(want), "the command functions did not run exactly once each with the arguments (split on single spaces) and raw remainder of their own message")
 		}
-		c.R.Count("cmdwire/"+in["texts"]+in["hold"]+in["tmpfirst"]+in["renamed"], true, "cmd-wire")
+		c.R.Count("cmdwire/"+in["texts"]+in["hold"]+in["tmpfirst"]+in["renamed"]+in["latelower"], true, "cmd-wire")
 	}
 }
 
@@ -136,5 +147,6 @@ func runC18Conn(c *Ctx) {
 	c.run("cmdwire", map[string]string{"hold": "1", "texts": strings.Join([]string{"!echo one two", "!echo three", "!echo four five six", "!echo"}, "\x00")})
 	c.run("cmdwire", map[string]string{"renamed": "1", "texts": strings.Join([]string{"!echo a  b", "!pair x y", "!echo"}, "\x00")})
 	c.run("cmdwire", map[string]string{"tmpfirst": "1", "texts": strings.Join([]string{"!echo a b", "!pair x y", "!echo"}, "\x00")})
-	c.R.Traces += 4
+	c.run("cmdwire", map[string]string{"latelower": "1", "texts": strings.Join([]string{"!echo a  b", "!pair x y", "!echo"}, "\x00")})
+	c.R.Traces += 5
 }
